@@ -697,47 +697,95 @@ example : getStateStale (T := PStr) id (⟨ofS "ab", none⟩ : PDoc PStr) = ofS 
     getState (T := PStr) id { (pickleRoundTrip id id (⟨ofS "ab", none⟩ : PDoc PStr)) with tree := ofS "abc" } = ofS "abc" := by
   decide +kernel
 
-/-- the model's reading of `__getstate__`/`__setstate__`, from the live source: the only statement of `__getstate__` that
-    touches `markup` is the unconditional `d['markup'] = self.decode(eventual_encoding=None)` (no target encoding: <meta> declarations
-    are left as they are, f08ffee); `__setstate__` rebuilds with `reset()` + `_feed()` -/
-theorem pickle_source :
-    BS.Gen.Copy.getstateMarkup = [ofS "d['markup'] = self.decode(eventual_encoding=None)"] ∧
-    BS.Gen.Copy.setstateCalls = [ofS "self.reset()", ofS "self._feed()"] := by decide +kernel
+/-! ### the model's reading of `copy_self` / `__getstate__` / `__setstate__`, pinned to observed behaviour
 
-/-! ### the model's reading of `copy_self`, pinned to the live source -/
+    The four theorems below compare tables generated by `translate/parts_c12.py` with what `Model/Copy.lean` assumes. The tables
+    are **not** source text: the translator builds probe objects in the running bs4 (spy subclasses of `Tag` / `BeautifulSoup`
+    recording the bound arguments of `__init__`, `decode`, `reset`, `_feed`; one distinct sentinel value per parameter, told apart by
+    identity), calls the method and writes down what it saw. Renaming locals, reordering independent statements, extracting a
+    helper, unrolling a loop leave every table unchanged; a change of behaviour on the probes changes one. What they assume: the
+    probes are representative (two probe tags with complementary flags inside a small tree, attribute values of every kind in a
+    `dict` subclass; four probe documents); everything beyond the probes is the harness's business. -/
 
-/-- `Tag.copy_self` passes, for **every** parameter of `Tag.__init__` other than `parent`/`previous`, either `None`
-    (`parser`, `builder`, and — since 51c5c32 — `attrs`, which is rebuilt right after the call) or the tag's own value — exactly the arguments `copySelf` models; then rebuilds `attrs` in a dict
-    of the original's class (the repair) and re-sets `can_be_empty_element` and `hidden`. Generated from the running source
-    with `inspect`/`ast`; the whole tables are compared. -/
-theorem copy_self_source :
-    BS.Gen.Copy.copySelfArgs =
-      [(ofS "attrs", ofS "None"), (ofS "builder", ofS "None"),
-       (ofS "can_be_empty_element", ofS "self.can_be_empty_element"),
-       (ofS "cdata_list_attributes", ofS "self.cdata_list_attributes"),
-       (ofS "interesting_string_types", ofS "self.interesting_string_types"), (ofS "is_xml", ofS "self._is_xml"),
-       (ofS "name", ofS "self.name"), (ofS "namespace", ofS "self.namespace"), (ofS "namespaces", ofS "self._namespaces"),
-       (ofS "parser", ofS "None"), (ofS "prefix", ofS "self.prefix"),
-       (ofS "preserve_whitespace_tags", ofS "self.preserve_whitespace_tags"),
-       (ofS "sourceline", ofS "self.sourceline"), (ofS "sourcepos", ofS "self.sourcepos")] ∧
-    BS.Gen.Copy.copySelfSetattrs = [ofS "can_be_empty_element", ofS "hidden"] ∧
-    BS.Gen.Copy.copySelfAfter =
-      [ofS "clone.attrs = self.attrs.__class__()",
-       ofS "for key, value in self.attrs.items():\n    if isinstance(value, list):\n        value = value.__class__(value)\n    clone.attrs[key] = value",
-       ofS "for attr in ('can_be_empty_element', 'hidden'):\n    setattr(clone, attr, getattr(self, attr))"] := by
+private def yes (names : List String) : List (PStr × Bool) := names.map fun n => (ofS n, true)
+private def kinds (l : List (String × String)) : List (PStr × PStr) := l.map fun p => (ofS p.1, ofS p.2)
+/-- a parameter that was not passed got its default, `None` for every parameter of `Tag.__init__` -/
+private def noneLike (l : List (PStr × PStr)) : List (PStr × PStr) :=
+  l.map fun p => (p.1, if p.2 == ofS "absent" then ofS "none" else p.2)
+
+/-- the model's reading of `__getstate__`/`__setstate__` (`getState` = `decode` of the *current* tree, `setState` = `feed`
+    of the stored markup, which `.markup` keeps; `soupPickle`: the whole `__dict__` travels), **observed on probe documents**:
+    `__getstate__` calls `self.decode` exactly once, with `eventual_encoding=None` (no target encoding: `<meta>` declarations are
+    left as they are, f08ffee) and nothing else but defaults; `state["markup"]` *is* the object that call returned — also when a
+    non-empty `.markup` was left over, also for an empty tree; `contents` is a new empty list, the four links are `None`,
+    `_most_recent_element` is gone, no tree object but the document itself is reachable from the state; the builder is replaced by
+    its class exactly when it is not picklable (`None` stays `None`); every other key of `__dict__` travels as the identical
+    object; the document is untouched. `__setstate__` calls `reset()` then `_feed()`, once each, whatever the builder entry: a class
+    is instantiated, `None` gives an `HTMLParserTreeBuilder`, an instance — even a falsy one — is kept, `builder.soup` is the new
+    object, the other fields are kept, the tree is the parse of `state["markup"]`. Pinned to behaviour, not to source text. -/
+theorem pickle_observed :
+    BS.Gen.Copy.getstateDecodeCalls = 1 ∧
+    BS.Gen.Copy.getstateDecode = kinds [("indent_level", "default"), ("eventual_encoding", "none"), ("formatter", "default"),
+      ("iterator", "default"), ("kwargs", "default")] ∧
+    BS.Gen.Copy.getstateFacts = yes ["builder_none_kept", "contents_empty", "empty_tree_gives_empty_markup", "links_none_or_absent",
+      "markup_is_current_tree_not_leftover", "markup_is_what_decode_returned", "most_recent_element_absent",
+      "no_tree_object_reachable", "object_untouched", "other_keys_kept_identical", "picklable_builder_kept", "state_is_new_dict",
+      "unpicklable_builder_replaced_by_class"] ∧
+    BS.Gen.Copy.setstateCalls = [ofS "reset", ofS "_feed"] ∧
+    BS.Gen.Copy.setstateFacts = yes ["builder_class_instantiated", "builder_instance_kept", "builder_none_gives_htmlparser",
+      "builder_soup_is_the_object", "falsy_builder_object_kept", "markup_attribute_keeps_state_markup", "other_fields_kept",
+      "same_calls_for_every_builder_form", "tree_is_parse_of_state_markup"] := by decide +kernel
+
+/-- `Tag.copy_self` as `copySelf` models it, **observed on probe tags** (a spy subclass of `Tag`, one sentinel per parameter of
+    `Tag.__init__`, `hidden`/`can_be_empty_element`/`parser_class` set after construction, `known_xml` only on the parent, an
+    attribute dict of a user class holding a list of a user class, a plain `list`, a `str` subclass, an int, a float, `True`,
+    `None`): the one constructor call receives `None` (or nothing) for `parser`, `builder`, `attrs`, `parent`, `previous` and the
+    tag's own value for everything else (`is_xml` = the resolved `_is_xml`); the clone holds the same objects in the attributes of
+    those parameters, `parser_class = None`, no builder; its `attrs` is a new dict of the original's class with the keys in order,
+    every list value a new list of its own class with the same items, every other value the identical object (nothing is
+    re-processed — the repair, cd929ef; an empty dict of a user class stays one); `can_be_empty_element` and `hidden` are carried
+    whatever their value; no parent, no contents, no links; the original is untouched. Pinned to behaviour, not to source text. -/
+theorem copy_self_observed :
+    noneLike BS.Gen.Copy.copySelfCtor = kinds
+      [("parser", "none"), ("builder", "none"), ("name", "own"), ("namespace", "own"), ("prefix", "own"), ("attrs", "none"),
+       ("parent", "none"), ("previous", "none"), ("is_xml", "own"), ("sourceline", "own"), ("sourcepos", "own"),
+       ("can_be_empty_element", "own"), ("cdata_list_attributes", "own"), ("preserve_whitespace_tags", "own"),
+       ("interesting_string_types", "own"), ("namespaces", "own")] ∧
+    BS.Gen.Copy.copySelfClone = kinds
+      [("parser", "none"), ("builder", "noattr"), ("name", "same"), ("namespace", "same"), ("prefix", "same"), ("attrs", "rebuilt"),
+       ("parent", "none"), ("previous", "none"), ("is_xml", "same"), ("sourceline", "same"), ("sourcepos", "same"),
+       ("can_be_empty_element", "same"), ("cdata_list_attributes", "same"), ("preserve_whitespace_tags", "same"),
+       ("interesting_string_types", "same"), ("namespaces", "same")] ∧
+    BS.Gen.Copy.copySelfFacts = yes ["attrs_fresh_object", "attrs_keys_in_order", "attrs_same_class", "can_be_empty_element_carried",
+      "can_be_empty_element_none_carried", "clone_is_new_object_of_same_class", "empty_attrs_same_class_fresh", "hidden_carried",
+      "hidden_false_carried", "list_values_fresh", "list_values_same_class_same_items", "no_contents", "no_links", "no_parent",
+      "one_constructor_call", "original_untouched", "other_values_identical"] := by
   decide +kernel
 
 /-- no parameter of `Tag.__init__` is forgotten by `copy_self` ("Any new arguments here need to be mirrored in
-    Tag.copy_self", element.py:1638) -/
+    Tag.copy_self", element.py:1638): **every** parameter of the live signature — whatever it is called, also one added later —
+    is either handed the original's own value and found unchanged on the clone, or is one of `parser`/`builder`/`attrs`/
+    `parent`/`previous`, which get `None` or nothing. Observed on the probe tags, not read from source text. -/
 theorem copy_self_forwards_every_param :
+    BS.Gen.Copy.copySelfCtor.map Prod.fst = BS.Gen.Copy.tagInitParams ∧
+    BS.Gen.Copy.copySelfClone.map Prod.fst = BS.Gen.Copy.tagInitParams ∧
     BS.Gen.Copy.tagInitParams.all (fun p =>
-      (BS.Gen.Copy.copySelfArgs.map Prod.fst).contains p || p == ofS "parent" || p == ofS "previous") = true := by
+      (BS.Gen.Copy.copySelfCtor.lookup p == some (ofS "own") && BS.Gen.Copy.copySelfClone.lookup p == some (ofS "same")) ||
+      ([ofS "parser", ofS "builder", ofS "attrs", ofS "parent", ofS "previous"].contains p &&
+        (BS.Gen.Copy.copySelfCtor.lookup p == some (ofS "none") || BS.Gen.Copy.copySelfCtor.lookup p == some (ofS "absent")))) = true := by
   decide +kernel
 
-/-- `BeautifulSoup.copy_self`: a new, empty object on the same builder; `original_encoding` carried over -/
-theorem soup_copy_self_source :
-    BS.Gen.Copy.soupCopySelfArgs = [ofS "''", ofS "None", ofS "self.builder"] ∧
-    BS.Gen.Copy.soupCopySelfAssigns = [(ofS "original_encoding", ofS "self.original_encoding")] ∧
+/-- `BeautifulSoup.copy_self` as `soupCopySelf` / `copySoupImpl` model it, **observed on a probe document** (a spy subclass of
+    `BeautifulSoup` on a builder object of its own, `original_encoding` set to a sentinel): one constructor call with empty
+    markup, no features, the original's very builder object and nothing else; the clone is a new empty object of the same class
+    with the root name, hidden, on that same builder, attached to nothing; `original_encoding` is carried over; the original is
+    untouched. Pinned to behaviour, not to source text. -/
+theorem soup_copy_self_observed :
+    noneLike BS.Gen.Copy.soupCopySelfCtor = kinds [("markup", "empty"), ("features", "none"), ("builder", "own"),
+      ("parse_only", "none"), ("from_encoding", "none"), ("exclude_encodings", "none"), ("element_classes", "none"),
+      ("kwargs", "none")] ∧
+    BS.Gen.Copy.soupCopySelfFacts = yes ["clone_has_root_name", "clone_is_empty", "clone_is_new_object_of_same_class",
+      "no_parent_no_siblings", "one_constructor_call", "original_encoding_carried", "original_untouched", "same_builder_object"] ∧
     BS.Gen.Copy.rootTagName = ofS "[document]" := by decide +kernel
 
 end BS.Props.C12
